@@ -181,6 +181,29 @@ fn judge_trace(kind: &str, idx: u64, p: &Program, tag: &str) -> CaseResult {
             }
         }
         let marks = marker_addrs(&built);
+        // (address, mnemonic) of every instruction the compiler marked protected, sorted by address
+        let mut prot: Vec<(u16, String)> = Vec::new();
+        {
+            let mut pending = false;
+            for l in &built.asm.lines {
+                match l.kind {
+                    crate::asm6502::LineKind::Comment => {
+                        if l.text.trim() == ";@P" {
+                            pending = true;
+                        }
+                    }
+                    crate::asm6502::LineKind::Instr => {
+                        if pending {
+                            prot.push((l.addr, l.mnemonic.clone()));
+                        }
+                        pending = false;
+                    }
+                    _ => {}
+                }
+            }
+            prot.sort();
+            prot.dedup_by_key(|x| x.0);
+        }
         if built.layout.zp_end > 0xf0 {
             // variables would reach the watched boundary addresses
             res.class = "too many variables for the watched address ranges (not judged)".into();
@@ -192,7 +215,39 @@ fn judge_trace(kind: &str, idx: u64, p: &Program, tag: &str) -> CaseResult {
                 Ok(x) => x,
                 Err(_) => continue,
             };
-            let rr = run_compiled(p, &built, &input, cycle_budget(steps), &|m| hw_watch(m, &marks));
+            let rr = run_compiled(p, &built, &input, cycle_budget(steps), &|m| {
+                hw_watch(m, &marks);
+                m.pc_count_set = prot.iter().map(|x| x.0).collect();
+            });
+            // protected instructions executed (the compiler's own mark, made visible by the hook
+            // steux_cc6502_verif) against the explicit statements the reference executed
+            if rr.stop == Stop::Halt && !prot.is_empty() || rr.stop == Stop::Halt && trace.iter().any(|t| matches!(t, TraceEv::Explicit(_))) {
+                let (mut got_l, mut got_s) = (0u64, 0u64);
+                for (i, (_, mn)) in prot.iter().enumerate() {
+                    let n = rr.machine.pc_counts.get(i).copied().unwrap_or(0);
+                    match mn.as_str() {
+                        "LDA" | "TXA" | "TYA" => got_l += n,
+                        "STA" | "TAX" | "TAY" => got_s += n,
+                        _ => {}
+                    }
+                }
+                let want_l = trace.iter().filter(|t| matches!(t, TraceEv::Explicit(1))).count() as u64;
+                let want_s = trace.iter().filter(|t| matches!(t, TraceEv::Explicit(2) | TraceEv::CSleep(3))).count() as u64;
+                res.count("protected loads / stores executed and compared with the explicit statements executed", got_l + got_s);
+                if got_l != want_l || got_s != want_s {
+                    let w = format!(
+                        "the source executes {} explicit loads and {} explicit stores / strobes, the emitted code executes {} protected load and {} protected store instructions",
+                        want_l, want_s, got_l, got_s
+                    );
+                    res.class = "explicit statements not executed as prescribed".into();
+                    res.violate(
+                        &format!("C18:{}:{}", kind, idx),
+                        &format!("C18 -O{} input #{}: {}\n--- source\n{}", lvl, k, w, src),
+                        json!({"kind": kind, "idx": idx, "opt": lvl, "vector": k, "why": w, "source": src, "listing": listing(&obs), "input": state_brief(p, &input)}),
+                    );
+                    return res;
+                }
+            }
             let (got, cyc) = observed_trace(&rr.machine, &marks);
             let got_all = got.clone();
             let mut openers: std::collections::BTreeSet<String> = std::collections::BTreeSet::new();
@@ -245,7 +300,7 @@ fn judge_trace(kind: &str, idx: u64, p: &Program, tag: &str) -> CaseResult {
                         want.push(Ev::T(*op));
                         // keep `last_marker` false: the bracket is open until the next marker
                     }
-                    TraceEv::Enter(_) => continue,
+                    TraceEv::Enter(_) | TraceEv::Explicit(_) => continue,
                 }
                 last_marker = marker;
                 last_sleep = false;
